@@ -352,6 +352,12 @@ def _zero_arg_name(ctx, t):
     return VB(ops.disj([strz(t) == pystr(k) for k in ZERO_ARG_OPERATORS]))
 
 
+@REG.specfun('sig_name')
+def _sig_name(ctx, t):
+    """the token's text is a key of the signature table"""
+    return VB(ops.disj([strz(t) == pystr(k) for k in _sig(ctx.engine, lambda v: True)]))
+
+
 @REG.specfun('bare_arg_name')
 def _bare_arg_name(ctx, t):
     """the signature table gives the command mandatory arguments (which may then be bare tokens)"""
@@ -386,6 +392,13 @@ REG.add(Contract(
              P(['C08'], 'bare-only-with-signature',
                '%s and n_required_args < 0 and n_optional_args < 0 and not bare_arg_name(buf.Q[old(buf.i) + skip]) ==> '
                'not bare(result[1].items)' % _HASNAME),
+             # C09: a name that is not a key of the signature table (a starred variant, say) is read with the open signature:
+             # a group that may attach does attach
+             P(['C09'], 'a-name-outside-the-signature-table-takes-attachable-groups',
+               '%s and n_required_args < 0 and n_optional_args < 0 and not sig_name(buf.Q[old(buf.i) + skip]) and '
+               'old(buf.i) + skip + 1 < len(buf.Q) and (buf.Q[old(buf.i) + skip + 1].cat in (TC.BracketBegin, TC.GroupBegin) or '
+               '(buf.Q[old(buf.i) + skip + 1].cat == TC.MergedSpacer and old(buf.i) + skip + 2 < len(buf.Q) and '
+               'buf.Q[old(buf.i) + skip + 2].cat in (TC.BracketBegin, TC.GroupBegin))) ==> len(result[1].items) >= 1' % _HASNAME),
              A('name-split', '%s ==> W(buf, old(buf.i) + skip, buf.i) == concat(result[0].text, %s) and '
                              'NW(W(buf, old(buf.i) + skip, buf.i)) == concat(NW(result[0].text), NW(%s))'
                % (_HASNAME, _RC_SPAN, _RC_SPAN)),
